@@ -4,6 +4,7 @@ package rules
 import (
 	"fmt"
 	"go/token"
+	"go/types"
 	"sort"
 	"strings"
 
@@ -454,4 +455,59 @@ func holdsX(p *core.Prog, at ssa.Instruction, val bool, pred func(c ssa.Value, a
 		}
 	}
 	return false
+}
+
+// errHelperFacts lists what is known at `at` because a validating helper of the module (a function whose only result is
+// an error: checkPathMajor(p)) is known to have returned nil there: the facts at the helper's single nil return, with
+// Arg mapping the helper's parameters back to the arguments of the call.
+func errHelperFacts(p *core.Prog, at ssa.Instruction) []xfact {
+	var out []xfact
+	fs := p.FactsAt(at)
+	for _, c := range core.Calls(at.Parent()) {
+		call, ok := c.(*ssa.Call)
+		if !ok {
+			continue
+		}
+		h := core.Callee(call)
+		if h == nil || !core.InModule(h) || h.Blocks == nil {
+			continue
+		}
+		res := h.Signature.Results()
+		if res.Len() != 1 || !types.Implements(res.At(0).Type(), errorIface()) {
+			continue
+		}
+		if nn, known := fs.ErrNonNil(call); !known || nn {
+			continue
+		}
+		var nilRets []*ssa.Return
+		for _, ret := range core.ReturnsOf(h) {
+			if vals := core.RetVals(ret); len(vals) == 1 && core.IsNilConst(vals[0]) {
+				nilRets = append(nilRets, ret)
+			}
+		}
+		if len(nilRets) != 1 {
+			continue
+		}
+		args := call.Call.Args
+		arg := func(v ssa.Value) ssa.Value {
+			for i, prm := range h.Params {
+				if i >= len(args) {
+					break
+				}
+				if v == ssa.Value(prm) {
+					return args[i]
+				}
+				if ld, isLd := v.(*ssa.UnOp); isLd && ld.Op == token.MUL {
+					if sv := core.SingleStore(ld.X); sv == ssa.Value(prm) {
+						return args[i]
+					}
+				}
+			}
+			return v
+		}
+		for f := range p.FactsAt(nilRets[0]) {
+			out = append(out, xfact{Cond: f.Cond, Val: f.Val, Arg: arg})
+		}
+	}
+	return out
 }
